@@ -100,6 +100,8 @@ class MemberTrace:
         self.events = []
         self.active = False
         self._orig = None
+        self.clock = None      # optional callable: logical time (e.g. length of the outer traced stream's log)
+        self.tick = 0          # enter/exit counter: events carry (enter tick, exit tick) so that nesting can be read off
 
     def install(self):
         if self._orig is not None:
@@ -121,12 +123,17 @@ class MemberTrace:
                 return op0(self, stream, context, path)
             t0 = _tell(stream)
             idx = len(trace.events)
-            trace.events.append(["parse", path, self.name, t0, None, None, id(stream)])
+            trace.tick += 1
+            trace.events.append(["parse", path, self.name, t0, None, None, id(stream), trace.clock() if trace.clock else None, None, self, trace.tick, None])
             try:
                 r = op0(self, stream, context, path)
             except BaseException as e:
                 trace.events[idx][5] = type(e).__name__
                 raise
+            finally:
+                trace.events[idx][8] = trace.clock() if trace.clock else None
+                trace.tick += 1
+                trace.events[idx][11] = trace.tick
             trace.events[idx][4] = _tell(stream)
             return r
 
